@@ -39,6 +39,21 @@ def kf_generated(findings):
     return "".join(out)
 
 
+def all_generated(seed, tier, findings=None):
+    """generated.rs content: known-finding switches, oracle tables and every property module's
+    tier/seed-dependent constants (all modules, so that every harness file always compiles)"""
+    from . import gen_tables
+    gen = kf_generated(findings if findings is not None else load_findings())
+    gen += gen_tables.generated_rs()
+    pdir = os.path.join(VERIF, "props")
+    for f in sorted(os.listdir(pdir)):
+        if f.endswith(".py") and f != "__init__.py":
+            m = importlib.import_module("props." + f[:-3])
+            if hasattr(m, "generated_rs"):
+                gen += m.generated_rs(seed, tier)
+    return gen
+
+
 def _tier_ok(ob, tier):
     return tier == "thorough" or ob.tier == "quick"
 
@@ -48,11 +63,7 @@ def run_property(pid, tier, seed, only=None, jobs=None):
     mod = importlib.import_module(f"props.{pid.lower()}")
     findings = load_findings()
     my_findings = [f for f in findings if pid in (f.get("properties") or [f.get("property")])]
-    gen = kf_generated(findings)
-    if hasattr(mod, "generated_rs"):
-        gen += mod.generated_rs(seed, tier)
-    from . import gen_tables
-    gen += gen_tables.generated_rs()
+    gen = all_generated(seed, tier, findings)
     obligations = [o for o in mod.obligations(tier, seed) if _tier_ok(o, tier)]
     if only:
         obligations = [o for o in obligations if any(x in o.oid for x in only)]
@@ -248,7 +259,7 @@ COMMON_ASSUMPTIONS = [
 
 def replay_file(path):
     d = json.load(open(path))
-    rdst, _, _ = kani.build_replay(kf_generated(load_findings()) + _tables())
+    rdst, _, _ = kani.build_replay(all_generated(0, "quick"))
     bad = 0
     for ce in d.get("counterexamples") or []:
         if d["engine"] == "kani":
